@@ -530,6 +530,76 @@ func captureSet(key string, data []byte, flags uint32) []rawPut {
 	return out
 }
 
+// captureCat runs a Set of a and then an Append / Prepend of x through the real handler against a
+// scratch backend and returns the backend set requests of the set and of the rewrite the
+// append / prepend performs (metadata first, then the chunks), each with the value it stored.
+func captureCat(key string, a []byte, flags uint32, cat string, x []byte) (pa, pc []rawPut) {
+	fk := fakemc.New()
+	fk.RealClock = func() int64 { return time.Now().Unix() }
+	h := chunked.NewHandler(fk.Pipe())
+	defer h.Close()
+	take := func() []rawPut {
+		d := fk.Dump()
+		var out []rawPut
+		for _, q := range fk.TakeLog() {
+			if q.Op == fakemc.OpSet {
+				out = append(out, rawPut{Key: q.Key, Value: d[q.Key].Value, Flags: q.Flags})
+			}
+		}
+		return out
+	}
+	if err := h.Set(common.SetRequest{Key: []byte(key), Data: a, Flags: flags}); err != nil {
+		rig.Die("captureCat: %v", err)
+	}
+	pa = take()
+	var err error
+	if cat == "append" {
+		err = h.Append(common.SetRequest{Key: []byte(key), Data: x})
+	} else {
+		err = h.Prepend(common.SetRequest{Key: []byte(key), Data: x})
+	}
+	if err != nil {
+		rig.Die("captureCat: %v", err)
+	}
+	pc = take()
+	return pa, pc
+}
+
+// rewriteCases: an append / prepend re-stores the whole value with several backend requests. A
+// reader on another connection (or the loss of the writer's connection) can fall between any two
+// of them: after every prefix of the rewrite's requests a get and a gat must return the old
+// value, the new value or a miss — never a mix of the two (C05). Chunk count kept and grown.
+func rewriteCases(maxN int) []hCase {
+	var out []hCase
+	ds := 1184 - 71 - 3 - 16
+	for n := 1; n <= maxN; n++ {
+		for _, grow := range []bool{false, true} {
+			la, lx := (n-1)*ds+40, 100
+			if grow {
+				lx = ds // one more chunk afterwards
+			}
+			for _, cat := range []string{"append", "prepend"} {
+				a, x := genBytes(uint64(500+n), la), genBytes(uint64(600+n), lx)
+				pa, pc := captureCat("key", a, 0x2A, cat, x)
+				nv := append(append([]byte(nil), a...), x...)
+				if cat == "prepend" {
+					nv = append(append([]byte(nil), x...), a...)
+				}
+				wr := []rawWrite{{"key", a, 0x2A}, {"key", nv, 0x2A}}
+				for _, rd := range []string{"get", "gat"} {
+					c := hCase{Keys: []string{"key"}, Spare: []int{0}, Written: wr}
+					c.Ops = append(c.Ops, hOp{Kind: rd, Key: 0, Keys: []int{0}, Put: pa})
+					for _, pt := range pc {
+						c.Ops = append(c.Ops, hOp{Kind: rd, Key: 0, Keys: []int{0}, Put: []rawPut{pt}})
+					}
+					out = append(out, c)
+				}
+			}
+		}
+	}
+	return out
+}
+
 // interleavings of two request sequences (order-preserving merges), as strings over {A,B}
 func merges(a, b int) []string {
 	if a == 0 && b == 0 {
@@ -640,6 +710,7 @@ func chunkedSeq(e *env, prop string, mode int) {
 			im = 3
 		}
 		cases = append(cases, interleavingCases(im)...)
+		cases = append(cases, rewriteCases(im+1)...)
 		// multi-key gets: every value handed out must still be, when the whole get is over, the
 		// value one set wrote (the receiver keeps them while the handler fetches the next keys)
 		ds5 := 1184 - 71 - 3 - 16
@@ -721,7 +792,7 @@ func chunkedSeq(e *env, prop string, mode int) {
 		}
 		w.Add(rig.Case{Desc: c, Coq: coq, Nontrivial: nt, Tags: tags})
 	}
-	w.Res.Rule = "chunked handler over a fake backend: random operation sequences over 3 client keys (lengths 1..250, with and without spare slice capacity, keys resembling each other's backend keys), value lengths 0/1/k*payload±1/100/999 chunks; non-trivial = some value spans >= 2 chunks; C05: every subset of {meta, chunk i} of an n-chunk value removed before a get and a gat, with stale chunks of an older longer value present (exhaustive in n); and the backend requests of two complete sets of one key merged in every order, with a get (resp. gat) after every single request (exhaustive for n <= 2 chunks quick, <= 3 thorough); multi-key gets of two keys with values of 1..3 chunks in every order, each value checked again when the whole get is over"
+	w.Res.Rule = "chunked handler over a fake backend: random operation sequences over 3 client keys (lengths 1..250, with and without spare slice capacity, keys resembling each other's backend keys), value lengths 0/1/k*payload±1/100/999 chunks; non-trivial = some value spans >= 2 chunks; C05: every subset of {meta, chunk i} of an n-chunk value removed before a get and a gat, with stale chunks of an older longer value present (exhaustive in n); and the backend requests of two complete sets of one key merged in every order, with a get (resp. gat) after every single request (exhaustive for n <= 2 chunks quick, <= 3 thorough); the backend requests of the rewrite an append / a prepend performs (chunk count kept and grown) with a get (resp. gat) after every single request; multi-key gets of two keys with values of 1..3 chunks in every order, each value checked again when the whole get is over"
 	if err := w.Finish([]string{"base.Bytes", "base.Harness", "gen.Consts_gen", "spec.MapSpec", "orca.Types", "handlers.Chunked", "checks.Check04"}, "case04",
 		fmt.Sprintf("check04 %d", mode)); err != nil {
 		rig.Die("%v", err)
